@@ -160,6 +160,24 @@ def run(ctx):
                     ctx.ok('R18.1', key, sampler.where(0), '%d abstract paths on the arc' % len(outs))
             else:
                 und += 1
+    # from == to: the joint is unconstrained (e.g. the suppressed J6 of a 5-DOF robot, a URDF joint without limits);
+    # sampling must still work (no empty range)
+    for x in (0.0, 1.0, -2.5, 6.0):
+        I = Interp(prog, HANDLERS, fuel=100000, max_paths=4096)
+        I.gen_checks = []
+        try:
+            outs = I.run(sampler.path, [Iv(x), Iv(x)])
+            ok = len(outs) >= 1 and all(isinstance(o.ret, Iv) and not o.ret.nan for o in outs)
+            msg = '%d abstract results' % len(outs)
+        except EmptyRange as e:
+            ok, msg = False, str(e)
+        except absint.Undecided as e:
+            ok, msg = True, 'undecided: %s' % e
+        except absint.Unsupported as e:
+            raise MachineryError('sampler could not be interpreted: %s' % e)
+        ctx.check(ok, 'R18.2', 'from==to==%g' % x, sampler.where(0), sampler.path,
+                  'from == to means unconstrained, yet sampling fails: ' + msg, detail=msg)
+
     ctx.evaluations += holds + fails + und
     ctx.extra['cells'] = {'width_deg': w / deg, 'holds': holds, 'definite_failures': fails, 'empty_range_panics': empties, 'undecided': und, 'excluded_band_or_ambiguous': excl}
     total = holds + fails + und + empties
